@@ -84,6 +84,20 @@ THEORY = {
 TRUSTED_THEORY_NOTE = [f"theory axiom {name}" for name in THEORY]
 
 
+def set_ops(e):
+    from . import ty as T
+    st = T.Set(e)
+    n = T._sname(e)
+    return (z3.Function(f"set_union_{n}", st.sort(), st.sort(), st.sort()),
+            z3.Function(f"set_inter_{n}", st.sort(), st.sort(), st.sort()),
+            z3.Function(f"set_diff_{n}", st.sort(), st.sort(), st.sort()))
+
+
+def supp_fn(e):
+    from . import ty as T
+    return z3.Function(f"supp_{T._sname(e)}", T.Bag(e).sort(), T.Set(e).sort())
+
+
 def _ext_axiom(sort, diff, size):
     so = sort.sexpr()
     d, f = diff.name(), size.name()
@@ -140,7 +154,15 @@ def _collection_axioms(e):
     b, b2 = z3.Const("_b", bt.sort()), z3.Const("_b2", bt.sort())
     s, s2 = z3.Const("_s", st.sort()), z3.Const("_s2", st.sort())
     x = z3.Const("_e", e.sort())
+    su, si, sdf = set_ops(e)
     return {
+        # set algebra (a | b, a & b, a - b) with the cardinality laws of finite sets
+        f"union_def[{n}]": FA([s, s2, x], su(s, s2)[x] == z3.Or(s[x], s2[x]), su(s, s2)[x]),
+        f"inter_def[{n}]": FA([s, s2, x], si(s, s2)[x] == z3.And(s[x], s2[x]), si(s, s2)[x]),
+        f"diff_def[{n}]": FA([s, s2, x], sdf(s, s2)[x] == z3.And(s[x], z3.Not(s2[x])), sdf(s, s2)[x]),
+        f"card_union[{n}]": FA([s, s2], card(su(s, s2)) + card(si(s, s2)) == card(s) + card(s2), card(su(s, s2))),
+        f"card_inter[{n}]": FA([s, s2], z3.And(card(si(s, s2)) <= card(s), card(si(s, s2)) <= card(s2)), card(si(s, s2))),
+        f"card_diff[{n}]": FA([s, s2], card(sdf(s, s2)) == card(s) - card(si(s, s2)), card(sdf(s, s2))),
         f"supp_def[{n}]": FA([b, x], supp(b)[x] == (b[x] >= 1), supp(b)[x]),
         # a duplicate-free list is as long as its set of elements
         f"bag01_len[{n}]": FA([b], z3.Implies(z3.And(0 <= b[w01(b)], b[w01(b)] <= 1), blen(b) == card(supp(b))), blen(b)),
